@@ -177,7 +177,10 @@ def stands_for(listed, value):
             return Decimal(listed).as_tuple() == value.as_tuple()
     except Exception:      # noqa
         return False
-    return listed == str.__str__(value)
+    # a str subclass: a string like any other - what an XML reading of the output gives for it is its `lenient` form (characters
+    # XML cannot hold, and the discouraged ones of KF-C02-1, arrive as U+FFFD: the same tolerance every other string comparison
+    # of this check has; without it a thorough run with seed 23 reported update({'a': S('\x7fa ')}) as a violation: false alarm)
+    return listed == lenient(str.__str__(value))
 
 
 def rand_float(rng):
